@@ -228,6 +228,12 @@ PINS = {
     'C19': ['py_res_base', 'py_res_container', 'py_res_resource', 'py_res_store'],
     'C20': ['notification', 'condition', 'flag', 'timing', 'tracked', 'streams', 'resource', 'pipe', 'context', 'basics'],
 }
+#: the kernel and the primitives everything else is built on: a change there can break any property of the native API (C12-m5
+#: sat in condition.py, C10-m4 in locks.py), so every machine-based property pins them in addition to its own files
+CORE_PINS = ['loop', 'waitq', 'handler', 'notification', 'condition', 'timing', 'flag', 'task', 'context', 'init']
+for _pid in PINS:
+    if _pid != 'C17':
+        PINS[_pid] = PINS[_pid] + [k for k in CORE_PINS if k not in PINS[_pid]]
 for _pid, _keys in PINS.items():
     PROPS[_pid]['gen'] = list(PROPS[_pid]['gen']) + ['Pins']
     PROPS[_pid]['props'] = list(PROPS[_pid]['props']) + ['Pin_' + k for k in _keys]
